@@ -168,19 +168,23 @@ def grantN (n : Nat) (st : ConnSt) : ConnSt :=
   let waiting := st.c.sending.filter (fun r => !st.granted.contains r)
   { st with granted := st.granted ++ waiting.take n }
 
-/-- `n` × `writerTake`, logging the stream ids written. -/
+/-- `n` × `writerTake`, logging the stream ids written (the id the writer will get is asked from the map first, so
+that the log does not have to search the server list). -/
 def takeN : Nat → ConnSt → ConnSt
   | 0, st => st
   | n + 1, st =>
+    let written : Option Nat :=
+      if st.c.broken then none else
+      match st.c.queue with
+      | [] => none
+      | r :: _ => (st.c.map.allocate r).map (·.1)
     let c' := step st.c .writerTake
-    let st' := if c'.server.length > st.c.server.length then
-        match c'.server.getLast? with
-        | some (s, _) =>
-          if st.writeFail then { st with c := c' }
-          else if st.gateClosed then { st with c := c', hiddenLog := s :: st.hiddenLog, hidden := st.hidden + 1 }
-          else { st with c := c', srv := s :: st.srv }
-        | none => { st with c := c' }
-      else { st with c := c' }
+    let st' := match written with
+      | some s =>
+        if st.writeFail then { st with c := c' }
+        else if st.gateClosed then { st with c := c', hiddenLog := s :: st.hiddenLog, hidden := st.hidden + 1 }
+        else { st with c := c', srv := s :: st.srv }
+      | none => { st with c := c' }
     takeN n st'
 
 def orphanN : Nat → Conn → Conn
@@ -355,22 +359,22 @@ def recvAll : List Nat → Conn → Conn
 /-- Every request future is polled once (oldest first). -/
 def pollAll (st : ConnSt) : ConnSt := st.users.reverse.foldl pollReq st
 
-def userOutcome (st : ConnSt) : Outcome → String
+def userOutcome (st : ConnSt) (users : List Nat) : Outcome → String
   | .frame f =>
     if f == unsolicitedMarker then "ok:unsolicited" else
     match st.bodies.find? (fun p => p.1 == f) with
     | some (_, tag) => "ok:" ++ tag
     | none =>
-    match st.users.reverse.idxOf? f with
+    match users.idxOf? f with
     | some k => s!"ok:{k}"
     | none => "ok:foreign"
   | .err e => "err:" ++ errLabel e
 
-def userCallerStr (st : ConnSt) : Option CallerSt → String
+def userCallerStr (st : ConnSt) (users : List Nat) : Option CallerSt → String
   | none => "none"
   | some .waiting => "pending"
-  | some (.delivered o) => "delivered:" ++ userOutcome st o
-  | some (.done o) => userOutcome st o
+  | some (.delivered o) => "delivered:" ++ userOutcome st users o
+  | some (.done o) => userOutcome st users o
   | some .abandoned => "cancelled"
 
 def connLine (st : ConnSt) : String :=
@@ -381,8 +385,8 @@ def connLine (st : ConnSt) : String :=
   let st := settle (pollAll st)
   let c := recvAll st.users st.c
   let users := st.users.reverse
-  let callers := (List.range users.length).map fun k =>
-    s!"{k}={userCallerStr st (getCaller c.callers (users.getD k 0))}"
+  let callers := (users.zip (List.range users.length)).map fun (r, k) =>
+    s!"{k}={userCallerStr st users (getCaller c.callers r)}"
   let cs := if callers.isEmpty then "-" else " ".intercalate callers
   let cause := match c.cause with
     | none => "-"
